@@ -220,6 +220,11 @@ def _check_fixed(run, rule, sp, cx, key):
     if tail is None:
         if sp.get("size") is None:
             run.check(not tail_segs, rule, key + " tail", "nothing after the fixed part", "unexpected data after the fixed part: %s" % ", ".join(L.show(s) for s in tail_segs)[:200])
+    elif tail == "cstring":
+        bs = b"".join(sg[1] for sg in (tail_segs or []) if sg[0] == "c")
+        const_only = tail_segs is not None and all(sg[0] == "c" for sg in tail_segs)
+        run.check(const_only and len(bs) >= 1 and bs[-1] == 0 and 0 not in bs[:-1], rule, key + " tail", "a NUL-terminated string after the %d-byte prefix" % off,
+                  "the bytes after the fixed part are not one NUL-terminated string: %s" % (bs.hex() if const_only else ", ".join(L.show(s) for s in (tail_segs or []))[:120]))
     elif tail == "boxes":
         run.check(tail_segs is not None and B.only_boxes(tail_segs), rule, key + " tail", "child boxes only after the %d-byte prefix" % off,
                   "stray bytes between the fixed prefix and the child boxes: %s" % (", ".join(L.show(s) for s in (tail_segs or []))[:200]))
@@ -590,17 +595,39 @@ def esds_check(run, segs, key):
         if body_end > end:
             problems.append("descriptor tag 0x%02x at %d: length %d overruns its parent (ends %d > %d)" % (tag, pos, ln, body_end, end))
             return end
+        children.setdefault(depth, []).append(tag)
         if tag == 0x03:
+            if bs[pos + 4] != 0:
+                problems.append("ES_Descriptor flags byte is %s (streamDependence/URL/OCR fields are not emitted, so it must be 0)" % bs[pos + 4])
             p = pos + 2 + 3
+            kids = []
             while p < body_end:
+                kids.append(bs[p])
                 p = desc(p, body_end, depth + 1)
+            if kids != [0x04, 0x06]:
+                problems.append("ES_Descriptor must contain DecoderConfigDescriptor (04) then SLConfigDescriptor (06), found tags %s" % [("0x%02x" % k) if k is not None else "?" for k in kids])
         elif tag == 0x04:
             if bs[pos + 2] != 0x40 or bs[pos + 3] != 0x15:
                 problems.append("DecoderConfigDescriptor objectType/streamType = %s/%s (want 0x40/0x15)" % (bs[pos + 2], bs[pos + 3]))
             p = pos + 2 + 13
+            kids = []
             while p < body_end:
+                kids.append(bs[p])
                 p = desc(p, body_end, depth + 1)
+            if kids != [0x05]:
+                problems.append("DecoderConfigDescriptor must contain exactly one DecoderSpecificInfo (05), found tags %s" % [("0x%02x" % k) if k is not None else "?" for k in kids])
+        elif tag == 0x05:
+            if ln < 2:
+                problems.append("DecoderSpecificInfo of %d byte(s): an AudioSpecificConfig has at least 2" % ln)
+        elif tag == 0x06:
+            if ln != 1 or bs[pos + 2] != 0x02:
+                problems.append("SLConfigDescriptor must be 06 01 02 (predefined = MP4), found length %s value %s" % (ln, bs[pos + 2] if pos + 2 < len(bs) else None))
+        else:
+            problems.append("unexpected descriptor tag 0x%02x at %d" % (tag, pos))
         return body_end
+    children = {}
+    if bs[pos] != 0x03:
+        problems.append("esds payload does not start with an ES_Descriptor (03)")
     endp = desc(pos, len(bs))
     if endp != len(bs):
         problems.append("ES_Descriptor ends at %d, box payload at %d" % (endp, len(bs)))
